@@ -144,7 +144,26 @@ def replay_interp_buildup(model):
     return bool(problems), {"what": "drawdown followed by a build-up: " + ("; ".join(problems) or "interpolator reproduces recovery, 0 before, final value after"), "inputs": {}}
 
 
-def replay_interp(model, cls="SinglePhaseReservoir", nx=4, nt=3, rerun=None):
+def replay_interp(model, cls="SinglePhaseReservoir", nx=4, nt=3, rerun=None, kept=False):
+    if kept:
+        # the interpolator of run A is kept while the same object is simulated on another grid (and its recovery asked for):
+        # it still is run A's recovery curve
+        import numpy as np
+        t = np.cumsum([float(model.get("t0") or 0.0)] + [float(model.get(f"dt{k}") or 0.01 * k) for k in range(1, nt)])
+        r = _real(cls, nx)
+        r.simulate(t)
+        rf = np.array(r.recovery_factor(), float)
+        f = r.recovery_factor_interpolator()
+        r.simulate(2.5 * t + 1.0)
+        r.recovery_factor()
+        try:
+            got = [float(f(v)) for v in t] + [float(f(t[-1] + 1.0))]
+        except Exception as ex:  # noqa: BLE001
+            return True, {"what": f"the interpolator of the first run raised {ex!r} after the object was simulated again", "inputs": {"t": t.tolist()}}
+        want = rf.tolist() + [float(rf[-1])]
+        bad = any(abs(a - b) > 1e-12 * (1 + abs(b)) for a, b in zip(got, want))
+        return bad, {"what": f"interpolator obtained after the run on {t.tolist()}, evaluated at those times (and beyond the last) after the same object was simulated on "
+                             f"{(2.5 * t + 1.0).tolist()}: {got} vs the first run's recovery {want}", "inputs": {"t": t.tolist()}}
     if cls != "IdealReservoir" and not rerun:
         bad, det = replay_interp_buildup(model)
         if bad:
@@ -311,13 +330,13 @@ def job_before(job, cls, after_rejected=False):
                                                          "replayer": "replay_errors", "replayer_kwargs": {"cls": cls, "which": which, "after_rejected": after_rejected}}, None)
 
 
-def job_interp(job, cls, nx, nt, rerun=None):
+def job_interp(job, cls, nx, nt, rerun=None, kept=False):
     """`rerun`: the object already carried an earlier run on another grid (plus the recovery calls named) when the run
     under test was made; the interpolator is then requested before recovery_factor()."""
     mod = load_reservoir()
     job.encoded(mod, "IdealReservoir.recovery_factor_interpolator", "IdealReservoir.recovery_factor")
     job.stub("scipy.interpolate.interp1d: exact piecewise-linear model")
-    tag = f"{cls}[nx={nx},nt={nt}{',after an earlier run + ' + '+'.join(rerun) if rerun else ''}]"
+    tag = f"{cls}[nx={nx},nt={nt}{',after an earlier run + ' + '+'.join(rerun) if rerun else ''}{',evaluated after a later run on another grid' if kept else ''}]"
     q = fresh("q")
 
     def run():
@@ -337,11 +356,20 @@ def job_interp(job, cls, nx, nt, rerun=None):
             r.simulate(t)
             rf = r.recovery_factor()
             f = r.recovery_factor_interpolator()
+        if kept:
+            # the caller keeps the interpolator of this run; the object is then simulated on another grid
+            td, rfd = list(t.d), list(rf.d)
+            t_new, _ = times(nt, prefix="w")
+            r.simulate(t_new)
+            r.recovery_factor()
+            return td, rfd, [f(v) for v in td], f(q)
         return t.d, rf.d, [f(v) for v in t.d], f(q)
 
-    rp = (replay_interp, {"cls": cls, "nx": nx, "nt": nt, "rerun": list(rerun) if rerun else None})
+    rp = (replay_interp, {"cls": cls, "nx": nx, "nt": nt, "rerun": list(rerun) if rerun else None, "kept": kept})
     for k, pr in enumerate(paths(job, run, [], max_paths=64)):
         if pr.exc is not None:
+            if isinstance(pr.exc, SS.NonMonotoneAbscissae):
+                continue
             job.errors.append(f"{tag} interp raised {pr.exc!r}")
             continue
         t, rf, at_nodes, fq = pr.value
@@ -362,7 +390,7 @@ def job_interp(job, cls, nx, nt, rerun=None):
 
 
 # concrete replays run on the real code when the changed code uses something the engine does not model (harness.finish)
-FALLBACK = [(replay_interp_buildup, {}), (replay_shift, {}), (replay_shift, {"cls": "IdealReservoir"}), (replay_schedule, {}), (replay_interp, {}), (replay_interp, {"rerun": ["recovery_factor_interpolator"]}), (replay_errors, {}), (replay_errors, {"length": 1}), (replay_errors, {"which": "rf"}), (replay_errors, {"which": "interp"})]
+FALLBACK = [(replay_interp_buildup, {}), (replay_shift, {}), (replay_shift, {"cls": "IdealReservoir"}), (replay_schedule, {}), (replay_interp, {}), (replay_interp, {"rerun": ["recovery_factor_interpolator"]}), (replay_interp, {"kept": True}), (replay_errors, {}), (replay_errors, {"length": 1}), (replay_errors, {"which": "rf"}), (replay_errors, {"which": "interp"})]
 
 
 def jobs(tier):
@@ -378,6 +406,7 @@ def jobs(tier):
         if cls != "IdealReservoir":
             out.append((f"after-rejected-simulate-{cls[:6]}", lambda j, c=cls: job_before(j, c, True)))
         out.append((f"interp-{cls[:6]}", lambda j, c=cls: job_interp(j, c, 3, 3)))
+        out.append((f"interp-kept-{cls[:6]}", lambda j, c=cls: job_interp(j, c, 3, 3, kept=True)))
         out.append((f"interp-rerun-{cls[:6]}", lambda j, c=cls: job_interp(j, c, 3, 3, rerun=("recovery_factor_interpolator",))))
         out.append((f"interp-rerun2-{cls[:6]}", lambda j, c=cls: job_interp(j, c, 3, 3, rerun=("recovery_factor", "recovery_factor_interpolator"))))
     for nx, nt in cfg[:2]:
